@@ -27,6 +27,7 @@ type miniEval struct {
 	ctx     *core.Ctx                                // when set, calls of small pure module functions of integers are evaluated in place
 	tables  map[string][]ast.Expr                    // locals that name a row of a constant table
 	methods bool                                     // evaluate parameterless methods of the same package in place, with the same hooks
+	helpers bool                                     // evaluate any function of the same package in place (integer arguments bound, the others opaque), with the same hooks
 	depth   int
 	lens    map[string]bool // variables that stand for a slice, valued by its LENGTH
 	steps   int             // loop iterations executed (bounded)
@@ -190,6 +191,9 @@ func (e *miniEval) expr(x ast.Expr) int64 {
 			return v
 		}
 		if v, ok := e.inlineMethod(y); ok {
+			return v
+		}
+		if v, ok := e.inlineHelper(y); ok {
 			return v
 		}
 		return e.fail("call " + core.ExprStr(y))
@@ -803,4 +807,101 @@ func (e *miniEval) inlineMethod(call *ast.CallExpr) (int64, bool) {
 		return 0, false
 	}
 	return rets[0], true
+}
+
+// inlineHelper evaluates a call of a function or method of the same package by running its body
+// with the hooks of the caller: integer / boolean arguments (and arguments that are variables with a
+// value here) are bound to the parameters, every other argument stays opaque and is seen by the
+// hooks only. This is what makes a rule indifferent to a function being split into helpers.
+func (e *miniEval) inlineHelper(call *ast.CallExpr) (int64, bool) {
+	if !e.helpers || e.ctx == nil || e.depth > 3 {
+		return 0, false
+	}
+	f, ok := core.Callee(e.pk, call).(*types.Func)
+	if !ok || f.Pkg() == nil || f.Pkg().Path() != e.pk.PkgPath {
+		return 0, false
+	}
+	sig := f.Type().(*types.Signature)
+	if sig.Results().Len() > 1 || sig.Variadic() || sig.Params().Len() != len(call.Args) {
+		return 0, false
+	}
+	d := e.ctx.P.FindDecl(core.Rel(f.FullName()))
+	if d == nil || d.Decl.Body == nil {
+		return 0, false
+	}
+	// the helper runs on the caller's variable map (the hooks of a rule evaluate argument expressions
+	// through the evaluator they were created with); the caller's variables are restored afterwards
+	saved := make(map[string]int64, len(e.env))
+	for k, v := range e.env {
+		saved[k] = v
+	}
+	defer func() {
+		for k := range e.env {
+			delete(e.env, k)
+		}
+		for k, v := range saved {
+			e.env[k] = v
+		}
+	}()
+	sub := &miniEval{pk: d.Pkg, env: e.env, ctx: e.ctx, depth: e.depth + 1, methods: e.methods, helpers: true,
+		call: e.call, hook: e.hook, tuple: e.tuple, rng: e.rng, dyn: e.dyn, maps: e.maps, lens: e.lens, tables: e.tables}
+	type binding struct {
+		name string
+		val  int64
+	}
+	var binds []binding
+	k := 0
+	for _, fl := range d.Decl.Type.Params.List {
+		for _, nm := range fl.Names {
+			arg := ast.Unparen(call.Args[k])
+			k++
+			if nm.Name == "_" {
+				continue
+			}
+			bind := false
+			if t := core.TypeOf(e.pk, arg); t != nil {
+				if b, isB := t.Underlying().(*types.Basic); isB && b.Info()&(types.IsInteger|types.IsBoolean) != 0 {
+					bind = true
+				}
+			}
+			if id, isID := arg.(*ast.Ident); isID {
+				if _, has := e.env[id.Name]; has {
+					bind = true
+				}
+			}
+			if bind {
+				binds = append(binds, binding{nm.Name, e.expr(arg)})
+			}
+		}
+	}
+	if e.unknown != "" {
+		return 0, false
+	}
+	for _, b := range binds {
+		sub.env[b.name] = b.val
+	}
+	if d.Decl.Type.Results != nil {
+		for _, fl := range d.Decl.Type.Results.List {
+			for _, nm := range fl.Names {
+				sub.env[nm.Name] = 0
+			}
+		}
+	}
+	st, rets := sub.run(d.Decl.Body.List)
+	e.effects = append(e.effects, sub.effects...)
+	e.steps += sub.steps
+	if sub.unknown != "" {
+		e.fail(sub.unknown)
+		return 0, false
+	}
+	switch {
+	case st == miniPanic:
+		e.fail("helper " + f.Name() + " panics")
+		return 0, false
+	case sig.Results().Len() == 0:
+		return 0, true
+	case st == miniReturn && len(rets) == 1:
+		return rets[0], true
+	}
+	return 0, false
 }
